@@ -204,6 +204,21 @@ fn run(a: &Args) {
             if bases.len() >= (a.num("maxdocs", 4) + a.num("maxtrees", 3)) as usize { break; }
         }
     }
+    // a file as pdfTeX / Ghostscript spell it: dictionaries without spaces (/Type/Catalog), the catalog numbered AFTER
+    // the page tree, catalog-level entries a reconstruction must not lose
+    {
+        let raw = |t: &str| json!({ "raw": t });
+        let objects = vec![
+            json!({"n": 2, "g": 0, "value": raw("<</Type/Pages/Kids[3 0 R 5 0 R]/Count 2>>")}),
+            json!({"n": 3, "g": 0, "value": raw("<</Type/Page/Parent 2 0 R/MediaBox[0 0 200 100]/Contents 4 0 R>>")}),
+            json!({"n": 4, "g": 0, "dict": {"d": []}, "data": b"0 0 m 10 10 l S".to_vec(), "filter": null}),
+            json!({"n": 5, "g": 0, "value": raw("<</Type/Page/Parent 2 0 R/MediaBox[0 0 300 100]/Contents 6 0 R>>")}),
+            json!({"n": 6, "g": 0, "dict": {"d": []}, "data": b"0 0 m 20 20 l S".to_vec(), "filter": null}),
+            json!({"n": 9, "g": 0, "value": raw("<</Type/Catalog/Pages 2 0 R/PageLayout/OneColumn/Lang(en)>>")}),
+        ];
+        let plan = json!({"version": "1.4", "revisions": [{"objects": objects, "free": [], "xref": "table", "trailer": [["Root", {"ref": [9, 0]}]]}]});
+        bases.push(("compact".to_string(), crate::synth::build(&plan).bytes));
+    }
     let mut case = 0usize;
     for (bi, (bname, base)) in bases.iter().enumerate() {
         let numbers = crate::c03::object_numbers(base);
